@@ -157,7 +157,9 @@ def model_line(family, p, xi, given):
     base = family.replace('ss_adaptive_', '').replace('at_adaptive_', '').replace('adaptive_', '')
     if base == 'normal':
         if p.isdiagonal:
-            scale = numpy.asarray(p._proposal.kwds['scale'], dtype=float) * numpy.ones(len(names))
+            # the live scale (what `_jump` passes to the generator), not the cached frozen distribution:
+            # a cache that is stale after a reset / setter must show as a divergence
+            scale = numpy.asarray(p._std, dtype=float) * numpy.ones(len(names))
             return 'terms normal scale=%s xi=%s given=%s' % (frl(scale), frl(X), frl(G))
         return 'terms normalfull xi=%s given=%s' % (frl(X), frl(G))
     if base == 'bounded_normal':
@@ -212,7 +214,10 @@ class Suite:
         if not ans.startswith('terms'):
             self.diverge(family, 'driver', line, ans, real)
             return
-        mvn = getattr(p, '_proposal', None) if 'normal' in family and not getattr(p, 'isdiagonal', True) else None
+        mvn = None
+        if 'normal' in family and not getattr(p, 'isdiagonal', True):
+            # built from the live covariance (what `_jump` passes to multivariate_normal)
+            mvn = stats.multivariate_normal(cov=numpy.asarray(p.cov, dtype=float), allow_singular=True)
         flags = []
         val = eval_terms(parse_terms(ans), mvn, flags)
         if len(self.samples) < 6 and self.rng.random() < 0.05:
@@ -617,6 +622,27 @@ def run_instance(S, family, p0, names, doms, kind, exhaustive):
         if kind in ('box', 'angle'):
             S.jump_checks(family, p0, pts[3], 3)
             S.jump_checks(family, p0, pts[4], 3)
+    # the paths that change the scale other than an adaptation step: the model is fed the live
+    # settings of the object afterwards, the real density has to follow
+    if family in F.ADAPTIVE:
+        p = copy.deepcopy(p0)
+        p._reset_adaptation()
+        S.br('after _reset_adaptation')
+        for xi, given in pairs[:4]:
+            S.query(family, p, xi, given)
+        if family not in Q.SPHERE:
+            S.jump_checks(family, p, pts[0], 2)
+    if family in Q.PERPARAM and getattr(p0, 'isdiagonal', True):
+        p = copy.deepcopy(p0)
+        p.std = numpy.array(p._std, dtype=float) * numpy.array([1.7, 0.6, 1.3])[:len(names)]
+        S.br('after assignment to std')
+        for xi, given in pairs[:4]:
+            S.query(family, p, xi, given)
+        S.jump_checks(family, p, pts[0], 2)
+        p.cov = (numpy.array(p._std, dtype=float) * 0.8) ** 2
+        S.br('after assignment to cov')
+        for xi, given in pairs[4:7]:
+            S.query(family, p, xi, given)
 
 
 def run_adaptive_history(S, family, seed):
@@ -644,6 +670,20 @@ def run_adaptive_history(S, family, seed):
         if pool is None:
             pool = Q.query_pool(family, prop, rng)
         for q in [rng.choice(pool) for _ in range(4)]:
+            if family in Q.DISCRETE:
+                S.query_discrete(family, prop, q[0], q[1], table)
+            else:
+                S.query(family, prop, q[0], q[1])
+    # the chain's own way back to the initial settings, then one more adaptation step
+    for after in ('reset_proposals', 'reset_proposals + 1 step'):
+        if after == 'reset_proposals':
+            ch.reset_proposals()
+        else:
+            ch.step()
+        S.br('after ' + after)
+        if family in Q.DISCRETE:
+            S.reset_caches(prop)
+        for q in [rng.choice(pool) for _ in range(3)]:
             if family in Q.DISCRETE:
                 S.query_discrete(family, prop, q[0], q[1], table)
             else:
